@@ -339,8 +339,21 @@ def rule_R20_5(ctx):
     return r
 
 
+def rule_R20_6(ctx):
+    import c04
+    r = c04.rule_R04_4(ctx)
+    r.rule = "R20.6"
+    r.necessary_for = ("a block that runs in its enclosing scope rejects a legal "
+                       "inner redeclaration and leaks its names")
+    for v in r.violations:
+        v.rule = "R20.6"
+        v.key = v.key.replace("R04.4", "R20.6", 1)
+    return r
+
+
 def run(ctx):
-    return [rule_R20_1(ctx), rule_R20_2(ctx), rule_R20_3(ctx), rule_R20_4(ctx), rule_R20_5(ctx)]
+    return [rule_R20_1(ctx), rule_R20_2(ctx), rule_R20_3(ctx), rule_R20_4(ctx), rule_R20_5(ctx),
+            rule_R20_6(ctx)]
 
 
 META = {
